@@ -25,6 +25,20 @@ import (
 var zzErrRejected = errors.New("backend: rejected for some other reason")
 var zzErrSubscribe = errors.New("backend: notification subscription failed")
 
+// zzRejection: the backend refuses the transaction for ANY of the reasons
+// the chain package knows (symbolic reject code, every value except the three
+// that mean "I have it already"), or for a reason it cannot classify.
+func zzRejection() error {
+	if verifrt.Choice(2, "classified-rejection") == 0 {
+		return zzErrRejected
+	}
+	code := chain.RPCErr(verifrt.U32("reject-code"))
+	verifrt.Assume(code <= chain.ErrNonMandatoryScriptVerifyFlag)
+	verifrt.Assume(verifrt.And(code != chain.ErrTxAlreadyKnown, verifrt.And(code != chain.ErrTxAlreadyConfirmed, code != chain.ErrTxAlreadyInMempool)))
+	verifrt.Reach("classified-rejection")
+	return code
+}
+
 type zzC20World struct {
 	*zzWalletWorld
 	fund    *wire.MsgTx
@@ -128,7 +142,7 @@ func zzC20Publish(chained bool) {
 		w.chain.sendErr = chain.ErrTxAlreadyConfirmed
 		verifrt.Observe("answer", "already-confirmed")
 	case 4:
-		w.chain.sendErr = zzErrRejected
+		w.chain.sendErr = zzRejection()
 		verifrt.Observe("answer", "rejected")
 	case 5:
 		w.chain.notifyErr = zzErrSubscribe
@@ -224,6 +238,63 @@ func ZzC20Resend() {
 		verifrt.Assert(w.balance(0) == before0, "c20-balance-as-before-after-rejected-resend")
 		verifrt.Assert(len(w.unspent()) == len(utxoBefore), "c20-spendable-as-before-after-rejected-resend")
 		verifrt.Reach("resend-rejected")
+	}
+	verifrt.Reach("c20-end")
+}
+
+// ZzC20ResendMany: three unconfirmed wallet transactions (T1 and its child C
+// on one coin, independent T2 on another); on resynchronisation the backend
+// accepts or rejects each one independently. Every transaction that is still
+// unconfirmed when its turn comes is offered; rejected ones are forgotten with
+// their descendants, the others stay.
+func ZzC20ResendMany() {
+	w := zzNewC20World()
+	// a second confirmed coin
+	recv2 := w.newAddress(waddrmgr.KeyScopeBIP0084, false)
+	fund2 := zzPayTo(recv2, 300000, 2)
+	rec, err := wtxmgr.NewTxRecordFromMsgTx(fund2, time.Unix(1600000001, 0))
+	zzW(err)
+	m := w.chain.meta(w.chain.blocks[1])
+	zzW(walletdb.Update(w.db, func(tx walletdb.ReadWriteTx) error { return w.w.addRelevantTx(tx, rec, &m) }))
+	t1, ch1 := w.spend(w.fund, 0, w.fundAmt, w.changeAddr, 9)
+	_, err = w.w.reliablyPublishTransaction(t1, "")
+	zzW(err)
+	c, _ := w.spend(t1, 1, ch1, w.change2, 11)
+	_, err = w.w.reliablyPublishTransaction(c, "")
+	zzW(err)
+	t2, _ := w.spend(fund2, 0, 300000, w.changeAddr, 13)
+	_, err = w.w.reliablyPublishTransaction(t2, "")
+	zzW(err)
+	h1, hc, h2 := t1.TxHash(), c.TxHash(), t2.TxHash()
+	rej := map[chainhash.Hash]bool{
+		h1: verifrt.Choice(2, "reject-t1") == 1,
+		hc: verifrt.Choice(2, "reject-c") == 1,
+		h2: verifrt.Choice(2, "reject-t2") == 1,
+	}
+	w.chain.sent = nil
+	w.chain.sendFn = func(tx *wire.MsgTx) error {
+		if rej[tx.TxHash()] {
+			return zzRejection()
+		}
+		return nil
+	}
+	w.w.resendUnminedTxs()
+	w.chain.sendFn = nil
+	offered := map[chainhash.Hash]int{}
+	pos := map[chainhash.Hash]int{}
+	for k, mtx := range w.chain.sent {
+		offered[mtx.TxHash()]++
+		pos[mtx.TxHash()] = k
+	}
+	verifrt.Assert(offered[h1] == 1 && offered[h2] == 1, "c20-every-unconfirmed-transaction-reoffered")
+	if !rej[h1] {
+		verifrt.Assert(offered[hc] == 1 && pos[h1] < pos[hc], "c20-reoffered-parents-first")
+	}
+	verifrt.Assert(w.known(h1) == !rej[h1], "c20-resend-t1-kept-iff-accepted")
+	verifrt.Assert(w.known(h2) == !rej[h2], "c20-resend-t2-kept-iff-accepted")
+	verifrt.Assert(w.known(hc) == (!rej[h1] && !rej[hc]), "c20-resend-child-kept-iff-it-and-its-parent-accepted")
+	if rej[h1] || rej[hc] || rej[h2] {
+		verifrt.Reach("some-rejected")
 	}
 	verifrt.Reach("c20-end")
 }
